@@ -21,6 +21,7 @@ def parseNtfn (s : String) : Ntfn :=
   match s.splitOn ":" with
   | ["C", a, b, c] => .conn (nat! a) (nat! b) (nat! c)
   | ["C", a, b, c, _] => .conn (nat! a) (nat! b) (nat! c)
+  | ["C", a, b, c, _, _] => .conn (nat! a) (nat! b) (nat! c)
   | ["D", a, b, c] => .disc (nat! a) (nat! b) (nat! c)
   | ["D", a, b, c, _] => .disc (nat! a) (nat! b) (nat! c)
   | _ => .conn 999999 0 0
@@ -77,9 +78,9 @@ def parseDump (obs : String) : Dump :=
     cand := (get fs "cand").map nat!, htip := parseNode (get1 fs "htip"), ftip := parseNode (get1 fs "ftip"),
     disc := (get fs "disc").map nat!, lb := (get fs "lb").map (fun s => let n := parseNode s; (n.id, n.height)),
     ntf := (get fs "ntf").map parseNtfn,
-    memAt := (get fs "ntf").map (fun x => match x.splitOn ":" with | [_, _, _, _, m] => nat! m | _ => 0),
+    memAt := (get fs "ntf").map (fun x => match x.splitOn ":" with | [_, _, _, _, m] => nat! m | [_, _, _, _, m, _] => nat! m | _ => 0),
     pres := get1 fs "pres", pbest := nat! (get1 fs "pbest"), pbl := (get fs "pbl").map parseNode,
-    pseen := nat! (get1 fs "pseen"),
+    pseen := nat! (get1 fs "pseen"), tipread := get1 fs "tipread",
     cs := get1 fs "cstip" != "", csbyh := (get fs "csbyh").map nat!, csbad := nat! (get1 fs "csbad"),
     cstip := if get1 fs "cstip" == "E" || get1 fs "cstip" == "" then none else some (parseNode (get1 fs "cstip")),
     storedAt := (get fs "ntf").map (fun x => match x.splitOn ":" with | ["D", _, _, _, st] => st == "1" | _ => false),
@@ -141,8 +142,11 @@ def runCase : CaseFn := fun c => Id.run do
     let d := parseDump obs
     let fail (pid : String) (f : Fail) : String := s!"ORACLE-FAIL {pid} case {c.num} line {ln}: shape={f.1} {f.2} [{op}]"
     -- (a reorganisation whose rollback fails panics by design: "Rollback failed")
-    if (d.res == "panic" && ws.head? != some "headersfrb") || d.res == "hang" then
+    if (d.res == "panic" && ws.head? != some "headersfrb") || d.res == "hang" || d.res == "HANG" then
       out := out.push s!"ORACLE-FAIL C01 case {c.num} line {ln}: shape=handler-{d.res} the handler did not return normally [{op}]"
+    -- a backlog request must never be kept waiting by a batch that is being announced
+    for f in c19BacklogEnabled d do out := out.push (fail "C19" f)
+    if d.tipread == "HANG" || d.pres == "HANG" || d.res == "HANG" then diverged := true
     -- C01 on every dump
     for f in c01 cfg d do out := out.push (fail "C01" f)
     if ws == ["init"] then
@@ -205,11 +209,14 @@ def runCase : CaseFn := fun c => Id.run do
         for f in c02 cfg ev prev d do out := out.push (fail "C02" f)
         if dumpGood cfg prev && dumpGood cfg d then
           for f in c19Event cfg.tbl ev prev d do out := out.push (fail "C19" f)
-          for f in c19TipCovers d do out := out.push (fail "C19" f)
+          if d.tipread != "HANG" then
+            for f in c19TipCovers d do out := out.push (fail "C19" f)
           for f in c19HandlerAhead d do out := out.push (fail "C19" f)
           for f in c19DiscStored (match ev with | .headers _ hs => hs | _ => []) d do out := out.push (fail "C19" f)
           match ws with
-          | ["cfwrite", _, _, _, k, h] => for f in c19Probe (nat! k) (nat! h) d do out := out.push (fail "C19" f)
+          | ["cfwrite", _, _, _, k, h] =>
+            if d.tipread != "HANG" && d.pres != "HANG" then
+              for f in c19Probe (nat! k) (nat! h) d do out := out.push (fail "C19" f)
           | _ => pure ()
         -- (an import happens before the block manager serves subscribers: imported filter headers
         -- are not announced, existing test subscribers end here - `alignedEv` in the theorem)
